@@ -21,6 +21,7 @@
 #include <cxxabi.h>
 #include <limits>
 #include <typeinfo>
+#include <algorithm>
 #include <unordered_map>
 
 using namespace vh;
@@ -807,7 +808,7 @@ void judgeAttr(int p, const std::string &s, const Obs &o, int &nAcc, int &nRej)
 // have the same expected verdict; bisect on mismatch or exception.
 // =====================================================================================================
 
-const size_t kCnChunk = 64;
+size_t kCnChunk = getenv("C16_CHUNK") ? atoi(getenv("C16_CHUNK")) : 64;
 
 // returns number of MATH_CN_FORMAT issues; may throw
 int cnIssues(int p, const std::vector<const std::string *> &items, bool monitor)
@@ -843,6 +844,26 @@ struct CnItem
     std::string stripped;
     Gram g;
 };
+
+// an item whose observed outcome (exception, or issue count of a document containing only this item / only deviating
+// items) differs from what the grammar says
+void judgeCnSingle(int p, const CnItem &it, bool threw, const std::string &exc)
+{
+    std::string pn = posName(p);
+    const std::string &s = *it.raw;
+    std::string cls = classOf(it.stripped);
+    std::string pre = pn + ": content " + show(s) + " ";
+    if (threw) {
+        stat("throws:" + pn);
+        report("throws:" + pn + ":" + exc + ":" + cls, p, s, pre + "makes Validator::validateModel throw " + exc);
+    } else if (it.g == G_REJECT) {
+        stat("library_silent:" + pn);
+        report("accepts-nongrammar:" + pn + ":" + cls, p, s, pre + "is not in the grammar but the validator raises no MATH_CN_FORMAT issue");
+    } else {
+        stat("library_reports:" + pn);
+        report("rejects-grammar:" + pn + ":" + cls, p, s, pre + "is in the grammar but the validator raises a MATH_CN_FORMAT issue");
+    }
+}
 
 void judgeCnGroup(int p, const std::vector<CnItem> &grp, size_t lo, size_t hi, bool top)
 {
@@ -886,20 +907,16 @@ void judgeCnGroup(int p, const std::vector<CnItem> &grp, size_t lo, size_t hi, b
     if (threw) {
         stat("batches_that_threw");
     }
-    if (sz == 1) {
-        const std::string &s = *grp[lo].raw;
-        std::string cls = classOf(grp[lo].stripped);
-        std::string pre = pn + ": content " + show(s) + " ";
-        if (threw) {
-            stat("throws:" + pn);
-            report("throws:" + pn + ":" + exc + ":" + cls, p, s, pre + "makes Validator::validateModel throw " + exc);
-        } else if (g == G_REJECT) {
-            stat("library_silent:" + pn);
-            report("accepts-nongrammar:" + pn + ":" + cls, p, s, pre + "is not in the grammar but the validator raises no MATH_CN_FORMAT issue");
-        } else {
-            stat("library_reports:" + pn);
-            report("rejects-grammar:" + pn + ":" + cls, p, s, pre + "is in the grammar but the validator raises a MATH_CN_FORMAT issue");
+    // every cn yields at most one MATH_CN_FORMAT issue, so "all of them" / "none of them" identifies every item
+    bool allDeviate = !threw && sz > 1 && ((g == G_ACCEPT && n == static_cast<int>(sz)) || (g == G_REJECT && n == 0));
+    if (allDeviate) {
+        for (size_t i = lo; i < hi; ++i) {
+            judgeCnSingle(p, grp[i], false, "");
         }
+        return;
+    }
+    if (sz == 1) {
+        judgeCnSingle(p, grp[lo], threw, exc);
         return;
     }
     size_t mid = lo + sz / 2;
@@ -911,16 +928,29 @@ void judgeCnGroup(int p, const std::vector<CnItem> &grp, size_t lo, size_t hi, b
 // Grammar cases
 // =====================================================================================================
 
-void runGrammarCase(Ctx &ctx, int p, size_t batch)
+// the i-th string (after a seed-dependent affine permutation) of exactly `len` characters over the alphabet
+std::string fixedLengthString(int len, uint64_t i, uint64_t seed)
 {
-    const CandSet &cs = candidates(ctx.tier, ctx.seed);
-    size_t lo = batch * kBatch;
-    size_t hi = std::min(cs.all.size(), lo + kBatch);
+    uint64_t n = 1;
+    for (int k = 0; k < len; ++k) {
+        n *= 9;
+    }
+    // n is a power of 3; the multiplier is not divisible by 3, hence a bijection on [0, n)
+    uint64_t j = (i * 1000003ULL + (seed % n) * 7919ULL) % n;
+    std::string s(static_cast<size_t>(len), '0');
+    for (int k = len - 1; k >= 0; --k) {
+        s[static_cast<size_t>(k)] = kAlphabet[j % 9];
+        j /= 9;
+    }
+    return s;
+}
+
+void runGrammarCase(int p, const std::vector<std::string> &batchStrings, const std::string &label)
+{
     std::string pn = posName(p);
     std::vector<const std::string *> items;
     uint64_t h = fnv1a(pn);
-    for (size_t i = lo; i < hi; ++i) {
-        const std::string &s = cs.all[i];
+    for (const std::string &s : batchStrings) {
         h = fnv1a(s + "\x01", h);
         if (s.empty() && (p == P_PREFIX || p == P_INITIAL)) {
             // prefix="" / initial_value="" are indistinguishable from an absent attribute in the object model: not judged
@@ -968,6 +998,10 @@ void runGrammarCase(Ctx &ctx, int p, size_t batch)
                 stat("grammar_silent:" + pn);
             }
         }
+        // batching only: keep strings with and without an exponent part in separate documents
+        std::stable_sort(groups[G_ACCEPT].begin(), groups[G_ACCEPT].end(), [](const CnItem &a, const CnItem &b) {
+            return (a.stripped.find_first_of("eE") != std::string::npos) < (b.stripped.find_first_of("eE") != std::string::npos);
+        });
         for (auto &grp : groups) {
             for (size_t a = 0; a < grp.size(); a += kCnChunk) {
                 judgeCnGroup(p, grp, a, std::min(grp.size(), a + kCnChunk), true);
@@ -975,7 +1009,7 @@ void runGrammarCase(Ctx &ctx, int p, size_t batch)
         }
     }
     flushReports();
-    std::string sample = "position=" + pn + " batch=" + std::to_string(batch) + " strings=" + std::to_string(items.size()) + " grammar-accepted=" + std::to_string(nAcc) + " grammar-rejected=" + std::to_string(nRej) + " e.g.";
+    std::string sample = "position=" + pn + " batch=" + label + " strings=" + std::to_string(items.size()) + " grammar-accepted=" + std::to_string(nAcc) + " grammar-rejected=" + std::to_string(nRej) + " e.g.";
     for (size_t i = 0; i < items.size() && i < 12; ++i) {
         sample += " " + show(*items[i]);
     }
@@ -1059,6 +1093,14 @@ std::string magClass(double d)
         return "subnormal";
     }
     double a = std::fabs(d);
+    {
+        // |d| so close to DBL_MAX that its 15-significant-digit decimal exceeds DBL_MAX
+        char buf[64];
+        snprintf(buf, sizeof buf, "%.15g", a);
+        if (std::isinf(strtod(buf, nullptr))) {
+            return "rounds-above-DBL_MAX";
+        }
+    }
     if (a >= 1e300) {
         return "huge";
     }
@@ -1106,7 +1148,6 @@ void runRoundTripCase(Ctx &ctx)
     auto tv = Variable::create("t");
     tv->setUnits("dimensionless");
     comp->addVariable(tv);
-    std::string math = std::string("<math xmlns=\"") + MNS + "\" xmlns:cellml=\"" + NS + "\"><apply><eq/><ci>t</ci><cn cellml:units=\"dimensionless\">1</cn></apply></math>\n";
     uint64_t h = 1469598103934665603ULL;
     stage("roundtrip:build");
     for (int i = 0; i < n; ++i) {
@@ -1130,8 +1171,6 @@ void runRoundTripCase(Ctx &ctx)
         rs->setVariable(tv);
         rs->setTestVariable(tv);
         rs->setOrder(od[i]);
-        rs->setTestValue(math);
-        rs->setResetValue(math);
         comp->addReset(rs);
         h = fnv1a(fmtDouble(ex[i], 17) + "|" + fmtDouble(mu[i], 17) + "|" + fmtDouble(iv[i], 17) + "|" + std::to_string(pf[i]) + "|" + std::to_string(od[i]), h);
     }
@@ -1331,24 +1370,83 @@ void runRoundTripCase(Ctx &ctx)
     caseInfo(hex64(h), true, sample);
 }
 
-size_t nBatches(const std::string &tier)
+size_t pow9(int len)
 {
-    return (totalCandidates(tier) + kBatch - 1) / kBatch;
+    size_t n = 1;
+    for (int k = 0; k < len; ++k) {
+        n *= 9;
+    }
+    return n;
+}
+
+// Case index layout.
+//   segment A: shuffled list (all strings of length <= 5, extremes, random longer strings) x 8 positions
+//   segment B (thorough): all strings of length exactly 6 x 8 positions
+//   segment C (thorough): all strings of length exactly 7 (the shortest length at which sign, integer digits, point,
+//                         fraction digits, e, exponent sign and exponent digits are all present) x exponent attribute
+//   segment R: round trips
+struct Layout
+{
+    int64_t nA = 0;
+    int64_t nB = 0;
+    int64_t nC = 0;
+    int64_t nR = 0;
+    int64_t casesA() const { return nA * P_COUNT; }
+    int64_t casesB() const { return nB * P_COUNT; }
+    int64_t total() const { return casesA() + casesB() + nC + nR; }
+};
+
+Layout layout(const std::string &tier)
+{
+    Layout l;
+    l.nA = static_cast<int64_t>((totalCandidates(tier) + kBatch - 1) / kBatch);
+    if (tier == "thorough") {
+        l.nB = static_cast<int64_t>((pow9(6) + kBatch - 1) / kBatch);
+        l.nC = static_cast<int64_t>((pow9(7) + kBatch - 1) / kBatch);
+    }
+    l.nR = roundTripCases(tier);
+    return l;
 }
 
 } // namespace
 
 int64_t vh_case_count(const std::string &tier, uint64_t)
 {
-    return static_cast<int64_t>(nBatches(tier)) * P_COUNT + roundTripCases(tier);
+    return layout(tier).total();
 }
 
 void vh_run_case(Ctx &ctx)
 {
-    int64_t g = static_cast<int64_t>(nBatches(ctx.tier)) * P_COUNT;
-    if (ctx.index < g) {
-        runGrammarCase(ctx, static_cast<int>(ctx.index % P_COUNT), static_cast<size_t>(ctx.index / P_COUNT));
-    } else {
-        runRoundTripCase(ctx);
+    Layout l = layout(ctx.tier);
+    int64_t i = ctx.index;
+    std::vector<std::string> batch;
+    if (i < l.casesA()) {
+        const CandSet &cs = candidates(ctx.tier, ctx.seed);
+        size_t b = static_cast<size_t>(i / P_COUNT);
+        size_t lo = b * kBatch;
+        size_t hi = std::min(cs.all.size(), lo + kBatch);
+        batch.assign(cs.all.begin() + static_cast<long>(lo), cs.all.begin() + static_cast<long>(hi));
+        stat("strings_from_shuffled_list", static_cast<int64_t>(batch.size()));
+        runGrammarCase(static_cast<int>(i % P_COUNT), batch, "A" + std::to_string(b));
+        return;
     }
+    i -= l.casesA();
+    if (i < l.casesB() + l.nC) {
+        int len = 6;
+        int p = static_cast<int>(i % P_COUNT);
+        size_t b = static_cast<size_t>(i / P_COUNT);
+        if (i >= l.casesB()) {
+            len = 7;
+            p = P_EXPONENT;
+            b = static_cast<size_t>(i - l.casesB());
+        }
+        size_t n = pow9(len);
+        for (size_t k = b * kBatch; k < n && k < (b + 1) * kBatch; ++k) {
+            batch.push_back(fixedLengthString(len, k, ctx.seed));
+        }
+        stat("strings_of_length_" + std::to_string(len), static_cast<int64_t>(batch.size()));
+        runGrammarCase(p, batch, (len == 6 ? "B" : "C") + std::to_string(b));
+        return;
+    }
+    runRoundTripCase(ctx);
 }
